@@ -369,7 +369,7 @@ theorem effectiveAccess_none (tg : Table) : effectiveAccess tg none = .ok (guess
 
 theorem effectiveAccess_empty (tg : Table) : effectiveAccess tg (some []) = .ok (guessRegions tg) := rfl
 
-theorem chromsInOrder_single (c : String) (tg : Table) (hne : tg ≠ []) (hc : ∀ r ∈ tg, r.chrom = c) :
+theorem chromsInOrder_single_ext (c : String) (tg : Table) (hne : tg ≠ []) (hc : ∀ r ∈ tg, r.chrom = c) :
     chromsInOrder tg = [c] := by
   unfold chromsInOrder
   have hm : tg.map (·.chrom) = List.replicate tg.length c := by
@@ -405,7 +405,7 @@ theorem guessRegions_single (c : String) (tg : Table) (last : Row) (hlast : tg.g
     guessRegions tg = [⟨c, Generated.TELOMERE_SIZE, last.e, ""⟩] := by
   have hne : tg ≠ [] := by
     intro h; rw [h] at hlast; cases hlast
-  rw [guessRegions_eq, chromsInOrder_single c tg hne hc]
+  rw [guessRegions_eq, chromsInOrder_single_ext c tg hne hc]
   simp only [List.map_cons, List.map_nil]
   unfold lastEndOf
   rw [filter_chrom_single c tg hc, hlast]
